@@ -215,6 +215,12 @@ impl TextVisitor {
         let strict = (false, false);
         let exp = expect_from(n.mach, text.len(), n.dead, strict);
         let core = n.devs == 0;
+        if (text.len() <= 4 || (text.len() <= 24 && !text.is_ascii())) && !n.post && matches!(self.mode, Mode::C01 | Mode::C02 | Mode::C05 | Mode::C07) {
+            t.evals += 4;
+            if let Err(e) = slice_alignment_sweep(text.as_bytes(), STRICT, &slice_entry(text.as_bytes(), STRICT)) {
+                t.violation("", e, text_case(text, strict, "parse_slice_with"));
+            }
+        }
         match self.mode {
             Mode::C01 => {
                 t.outcome(exp.class());
@@ -477,6 +483,12 @@ impl ByteVisitor {
                 let exp = expect_bytes(bytes, strict);
                 t.outcome(exp.class());
                 let outs = [("parse_slice", slice_entry_default(bytes)), ("parse_slice_with", slice_entry(bytes, STRICT))];
+                if bytes.len() <= 64 {
+                    t.evals += 4;
+                    if let Err(e) = slice_alignment_sweep(bytes, STRICT, &outs[1].1) {
+                        t.violation("", e, bytes_case(bytes, strict, "parse_slice_with"));
+                    }
+                }
                 for (name, o) in outs {
                     t.evals += 1;
                     match self.mode {
@@ -957,6 +969,12 @@ fn x_case_struct(text: &str, mode: Mode, t: &mut Tally) {
     };
     t.outcome("spill");
     let mut entries = vec![("parse_utf8_with(observed)", observed(text, STRICT).0)];
+    if text.len() <= 256 {
+        t.evals += 4;
+        if let Err(e) = slice_alignment_sweep(text.as_bytes(), STRICT, &slice_entry(text.as_bytes(), STRICT)) {
+            t.violation("", e, text_case(text, (false, false), "parse_slice_with"));
+        }
+    }
     if text.len() <= 4096 {
         entries.extend(all_strict_text_entry_points(text));
     } else {
@@ -1260,5 +1278,78 @@ pub fn option_presets(rep: &mut Report) {
         }
     }
     t.outcome("option presets");
+    rep.absorb(t);
+}
+
+/// Deep documents (C01 verdicts, C07 positions): RFC 8259 knows no nesting limit. Arrays,
+/// objects and mixed nesting at depths around every size an implementation might hard-code as a
+/// "reasonable" limit; closed (accept), unclosed (reject at the end), closed with one closer too
+/// many (reject at that closer). Values are dismantled iteratively (dropping is recursive).
+pub fn deep_family(rep: &mut Report, mode: Mode, tier: Tier) {
+    use json_syntax::Parse;
+    let mut depths = vec![1_000usize, 1_024, 9_999, 10_000, 10_001, 65_535, 65_537, 99_999, 100_000, 100_001, 100_002, 100_003, 131_073];
+    if tier == Tier::Thorough {
+        depths.extend([262_145, 524_289, 1_000_000, 1_000_001, 1_048_577]);
+    } else {
+        depths.push(1_000_001);
+    }
+    let mut items = Vec::new();
+    for &d in &depths {
+        for form in 0..3u8 {
+            items.push((d, form));
+        }
+    }
+    let count = items.len();
+    let t = explore::par_tally(items, |(d, form), t| {
+        let mut s = String::new();
+        let mut closers = String::new();
+        for i in 0..d {
+            let obj = form == 1 || (form == 2 && i % 2 == 1);
+            if obj {
+                s.push_str("{\"k\":");
+                closers.push('}');
+            } else {
+                s.push('[');
+                closers.push(']');
+            }
+        }
+        let closers: String = closers.chars().rev().collect();
+        let open_len = s.len();
+        let mut closed = s.clone();
+        closed.push('0');
+        closed.push_str(&closers);
+        let unclosed = &closed[..open_len + 1];
+        let extra = format!("{closed}]");
+        let cases: [(&str, &str, Option<EK>); 3] = [
+            ("closed", &closed, None),
+            ("unclosed", unclosed, Some(EK::Unexpected(open_len + 1, None))),
+            ("closed with one closer too many", &extra, Some(EK::Unexpected(closed.len(), Some(']')))),
+        ];
+        for (what, text, want) in cases {
+            for (name, r) in [("parse_str", explore::guard(|| Value::parse_str(text).map_err(|e| ek(&e)))), ("parse_slice", explore::guard(|| Value::parse_slice(text.as_bytes()).map_err(|e| ek(&e))))] {
+                t.evals += 1;
+                let got: Result<(), Result<EK, String>> = match r {
+                    Ok(Ok((v, _))) => {
+                        crate::pump::release(v);
+                        Ok(())
+                    }
+                    Ok(Err(e)) => Err(e),
+                    Err(p) => Err(Err(format!("panic: {p}"))),
+                };
+                let ok = match (&got, &want) {
+                    (Ok(()), None) => true,
+                    (Err(Ok(e)), Some(w)) => mode == Mode::C01 || e == w,
+                    _ => false,
+                };
+                if !ok {
+                    let forms = ["arrays", "objects", "arrays and objects alternating"];
+                    t.violation("", format!("{name}: {} nested {d} deep, {what}: got {got:?}, expected {}", forms[form as usize], if let Some(w) = &want { format!("Err({w:?})") } else { "Ok".to_string() }), json!({"kind": "deep", "depth": d, "form": form, "what": what}));
+                }
+            }
+        }
+        t.nontrivial(&(d, form));
+        t.outcome("deep documents");
+    });
+    rep.bounds["deep"] = json!({"depths": depths, "forms": 3, "variants": ["closed", "unclosed", "one closer too many"], "documents": count * 3});
     rep.absorb(t);
 }
